@@ -27,7 +27,7 @@ pub fn run(rng: &mut Rng, out: &mut Out, thorough: bool, variant: &str) {
     // ---- write_int / read_int: every (offset 0..191, width 1..64), structured values and backgrounds
     let reps = if thorough { 6 } else { 1 };
     for off in 0..192usize {
-        for w in 1..=64usize {
+        for w in 0..=64usize {
             if !full_grid && rng.below(8) != 0 {
                 continue;
             }
@@ -56,8 +56,8 @@ pub fn run(rng: &mut Rng, out: &mut Out, thorough: bool, variant: &str) {
     for _ in 0..(if thorough { 2000 } else { 300 }) {
         let words = rng.range(1, 40) as usize;
         let a = background(rng, words);
-        let w = rng.range(1, 64) as usize;
-        let max_off = words * 64 - w;
+        let w = rng.range(0, 64) as usize;
+        let max_off = words * 64 - std::cmp::max(w, 1);
         let off = rng.below(max_off as u64 + 1) as usize;
         let r = unsafe { bits::read_int(&a, off, w) };
         out.case("rd", format!("CRd {} {} {} {}", nlist(&a), off, w, r),
